@@ -406,6 +406,22 @@ pub fn emit(thorough: bool, dir: &str, only: Option<&str>, shards: usize, cfgfla
                     qs.push((MACS[(n16 + qi) % 5], params));
                 }
             }
+            // queries whose parameters carry THREE distinct predicates (inner macro chain of length 3), written in an order
+            // that differs from the slot order, and one predicate used on two parameters
+            if used.len() == 3 {
+                let (pa, pb, pc) = (pred(used[0]), pred(used[1]), pred(used[2]));
+                for (qi, c) in comps_enabled.iter().enumerate().take(2) {
+                    let params = vec![
+                        Param { ty: PType::EntityAny, is_mut: false, cfg: if qi == 0 { pc.clone() } else { pb.clone() } },
+                        Param { ty: PType::Comp(c.clone()), is_mut: false, cfg: if qi == 0 { pa.clone() } else { pc.clone() } },
+                        Param { ty: PType::Entity(ids.archs[ids.archs.len() - 1].0.clone()), is_mut: false, cfg: if qi == 0 { pb.clone() } else { pa.clone() } },
+                        Param { ty: PType::DirectAny, is_mut: false, cfg: if qi == 0 { pa.clone() } else { pb.clone() } },
+                    ];
+                    if runnable(&ids, &params) {
+                        qs.push((MACS[(n16 + qi + 2) % 5], params));
+                    }
+                }
+            }
             cases.push(Case { name: format!("c{:05}", n16), prop: "C16", archs, queries: qs, with_twin: true });
         }
     }
